@@ -33,24 +33,35 @@ let show_edits lcap rcap (es : int M.edit list) =
       s) es)
   end
 
-let parse_input inp =
-  match words (String.map (fun c -> if c = '_' then ' ' else c) inp) with
-  | ["E"; mode; l; r] -> Some (int_of_string mode, ints_of l, ints_of r, [777; 777; 777], [888; 888; 888])
-  | ["E"; mode; l; r; lx; rx] -> Some (int_of_string mode, ints_of l, ints_of r, ints_of lx, ints_of rx)
-  | _ -> None
-
 (* the whole backing arrays as the harness builds them: two guards, the input, the spare capacity *)
 let larr l lx = str_ints ([555; 555] @ l @ lx)
 let rarr r rx = str_ints ([666; 666] @ r @ rx)
+let mk_e mode l r lx rx = (mode, l, r, lx, rx, larr l lx, rarr r rx)
+
+let rec drop n l = if n <= 0 then l else match l with [] -> [] | _ :: t -> drop (n - 1) t
+let rec take n l = if n <= 0 then [] else match l with [] -> [] | h :: t -> h :: take (n - 1) t
+
+(* -> (mode, lhs, rhs, lx, rx, lhs array, rhs array) *)
+let parse_input inp =
+  match words (String.map (fun c -> if c = '_' then ' ' else c) inp) with
+  | ["A"; mode; arr; a; b; c; d; cl] ->
+    let arr = ints_of arr and a = int_of_string a and b = int_of_string b
+    and c = int_of_string c and d = int_of_string d in
+    let win lo hi = take (hi - lo) (drop lo arr) in
+    let extra hi = if cl = "1" then [] else drop hi arr in
+    Some (int_of_string mode, win a b, win c d, extra b, extra d, str_ints arr, str_ints arr)
+  | ["E"; mode; l; r] -> Some (mk_e (int_of_string mode) (ints_of l) (ints_of r) [777; 777; 777] [888; 888; 888])
+  | ["E"; mode; l; r; lx; rx] -> Some (mk_e (int_of_string mode) (ints_of l) (ints_of r) (ints_of lx) (ints_of rx))
+  | _ -> None
 
 let eval inp =
   match parse_input inp with
   | None -> "?"
-  | Some (mode, l, r, lx, rx) ->
+  | Some (mode, l, r, lx, rx, la, ra) ->
     (match M.edit_script_run_cap (eq_for mode) lx rx l r with
      | M.EOk es ->
        show_edits (List.length l + List.length lx) (List.length r + List.length rx) es
-       ^ " / " ^ larr l lx ^ " / " ^ rarr r rx
+       ^ " / " ^ la ^ " / " ^ ra
      | M.EPanic -> "PANIC index"
      | M.EOutOfFuel -> "FUEL")
 
@@ -101,7 +112,7 @@ let lcs_len eq l r =
 
 let spec prop inp out =
   match prop, parse_input inp with
-  | "C11", Some (mode, l, r, lx, rx) when mode >= 0 || mode = -4 ->
+  | "C11", Some (mode, l, r, _, _, la0, ra0) when mode >= 0 || mode = -4 ->
     let eq = eq_for mode in
     if String.length out >= 5 && String.sub out 0 5 = "PANIC" then Some "EditScript panicked" else
     (match split3 out with
@@ -111,7 +122,7 @@ let spec prop inp out =
          let parsed = parse_edits eds in
          let es = List.map (fun (e, _, _) -> e) parsed in
          let same (a : int) (b : int) = (a = b) in
-         if la <> larr l lx || ra <> rarr r rx then Some "an input (or what lies before / behind it in its array) was modified by the call"
+         if la <> la0 || ra <> ra0 then Some "an input (or what lies before / behind it in its array) was modified by the call"
          else if not (M.valid_script_gen eq same l r es) then
            Some "executing the edits does not consume lhs and produce rhs with X/Y the spans at the current offsets"
          else if List.exists (fun (_, xo, yo) -> xo = "?" || yo = "?") parsed
